@@ -141,8 +141,13 @@ func sendHTTPResponse(result runtime.Element, err error, w http.ResponseWriter) 
 				}
 
 				// write to response directly
-				for k, v := range respHeader.(*value.HashMap).GetValue() {
-					w.Header().Add(k, v.String())
+				// in the dictionary's own order: names that differ in letter case only
+				// are one header on the wire, and the order of its values is visible
+				headerMap := respHeader.(*value.HashMap)
+				for _, k := range headerMap.GetKeyOrder() {
+					if v, ok := headerMap.GetValue()[k]; ok {
+						w.Header().Add(k, v.String())
+					}
 				}
 				w.WriteHeader(int(statusCode.(*value.Number).GetValue()))
 				w.Write([]byte(contentStr))
